@@ -102,6 +102,22 @@ impl RxCtrState {
     }
 }
 
+#[cfg(feature = "verif")]
+impl RxCtrState {
+    /// (highest accepted counter, bitmap) for the verification harness.
+    pub fn verif_state(&self) -> (u32, u16) {
+        (self.max_ctr, self.ctr_bitmap)
+    }
+
+    /// Rebuild a state from what [`RxCtrState::verif_state`] returned.
+    pub fn verif_with(max_ctr: u32, ctr_bitmap: u16) -> Self {
+        let mut this = Self::new(max_ctr);
+        this.max_ctr = max_ctr;
+        this.ctr_bitmap = ctr_bitmap;
+        this
+    }
+}
+
 /// Max number of unique group message senders tracked for replay protection.
 #[cfg(feature = "groups")]
 pub const MAX_GROUP_CTR_ENTRIES: usize = 16;
